@@ -22,6 +22,7 @@ CONSTANTS
     Presets,      \* dictionaries usable as pre-set / default options
     MapPaths,     \* paths a Map may iterate over
     DispPaths,    \* paths a later set_dispatch may name
+    ParamKinds,   \* node kinds a template parameter may be
     Cbs,          \* dataset callbacks ("" = none)
     EffSets,      \* effect chains (sequences of effect ids) a dataset may have
     Caches,       \* cache kinds of datasets: "mem" (MemoryCache), "none" (NoCache)
@@ -71,8 +72,8 @@ Cands ==
                         ps |-> IF ParamNames(s) = {} THEN <<>>
                                ELSE IF ParamNames(s) = {":p:"} THEN <<[name |-> "p", n |-> a]>>
                                ELSE <<[name |-> "p", n |-> a], [name |-> "q", n |-> b]>>] :
-                         a \in (IF ParamNames(s) = {} THEN {0} ELSE {e \in Free : KindOf(e) \in {"val", "opt", "with"}}),
-                         b \in (IF ":q:" \in ParamNames(s) THEN {e \in Free : KindOf(e) \in {"val", "opt", "with"}} ELSE {0})} : s \in Tmpls}
+                         a \in (IF ParamNames(s) = {} THEN {0} ELSE {e \in Free : KindOf(e) \in ParamKinds}),
+                         b \in (IF ":q:" \in ParamNames(s) THEN {e \in Free : KindOf(e) \in ParamKinds} ELSE {0})} : s \in Tmpls}
           ELSE {})
     \cup (IF want = "apply"
           THEN {[k |-> "apply", src |-> s, f |-> f, fp |-> fp] :
@@ -289,11 +290,17 @@ FO_Leaves == <<[p |-> pA, vals |-> {I(0), I(1), Bv(FALSE), Nv, Sv(<<>>), Str("x"
 \* family "tmplparams" (C09, C03): a template parameter that is itself a wrapper pinning a key the text reads
 FTP_Kinds == {"opt", "with", "tmpl"}
 FTP_Paths == {pA, pB}
-FTP_Tmpls == {<<Ref(pA), Chunk("-"), Par("p")>>, <<Par("p"), Ref(pB)>>}
+FTP_Tmpls == {<<Ref(pA), Chunk("-"), Par("p")>>, <<Par("p"), Ref(pB)>>, <<Ref(pSX), Chunk("-")>>}
+PK_Default == {"val", "opt", "with"}
+\* ... a parameter may itself be a Template (with a parameter of the same name: each template has its own)
+FTP_ParamKinds == {"opt", "with", "tmpl"}
 FTP_Presets == {Dv([k \in {"B"} |-> I(5)]), Dv([k \in {"C"} |-> I(6)])}
 FTP_Leaves == <<[p |-> pA, vals |-> {I(1), Sv(<<Ref(pB)>>), Sv(<<Chunk("x"), Ref(pC)>>)}, extra |-> FALSE],
                 [p |-> pB, vals |-> {I(1), I(2), Sv(<<Ref(pC)>>)}, extra |-> FALSE],
-                [p |-> pC, vals |-> {I(3), I(4)}, extra |-> FALSE]>>
+                [p |-> pC, vals |-> {I(3), I(4)}, extra |-> FALSE],
+                \* a templated value referring to a templated sibling of the same top-level section
+                [p |-> pSX, vals |-> {Sv(<<Ref(pSY)>>)}, extra |-> FALSE],
+                [p |-> pSY, vals |-> {Sv(<<Ref(pB)>>), I(1)}, extra |-> FALSE]>>
 
 \* family "combinators" (C05, C06, C03, C10, C11): every combinator over options / constants / bodies
 \* (the string in these universes is "1": it prints like the integer 1 but is a different value and a different key)
@@ -389,9 +396,9 @@ FD_Leaves == <<[p |-> <<"K">>, vals |-> {I(1), Str("1"), I(2)}, extra |-> FALSE]
 \* family "classes" (C19): dataset classes = named members (a dict collection in the machine)
 FL_Kinds == {"val", "opt", "fnapp", "ds", "coll"}
 FL_Paths == {pA, pSX, pSY}
-FL_Consts == {I(5)}
+FL_Consts == {I(5), Lv(<<I(0), I(1)>>)}      \* the list serves as a declared domain: a member may fail validation though its key is present
 FL_Bodies == {"f"}
-FL_Leaves == <<[p |-> pA, vals |-> {I(0), I(1)}, extra |-> FALSE],
+FL_Leaves == <<[p |-> pA, vals |-> {I(0), I(2)}, extra |-> FALSE],
                [p |-> pSX, vals |-> {I(1), I(2)}, extra |-> FALSE],
                [p |-> pSY, vals |-> {I(0), I(3)}, extra |-> FALSE],
                [p |-> <<"Z">>, vals |-> {I(7), I(8)}, extra |-> TRUE]>>
